@@ -1145,6 +1145,12 @@ def run_check(pid, tier, seed):
         print('unknown property', pid)
         return 2
     os.makedirs(EVID, exist_ok=True)
+    # replay files of earlier runs of this property are out of date
+    for old in glob.glob(os.path.join(REPLAYS, pid + '-*.json')):
+        try:
+            os.remove(old)
+        except OSError:
+            pass
     workdir = os.path.join(BUILD, 'run-%s-%s-%d' % (pid, tier, os.getpid()))
     shutil.rmtree(workdir, ignore_errors=True)
     os.makedirs(workdir)
@@ -1265,5 +1271,23 @@ def replay(pid, path):
             print('--- ' + nm)
             for l in open(p):
                 print(pretty_line(l)[:3000])
+    # verdict of the replay: the monitors of this property on what the implementation did now
+    rc_out = 0
+    mp = os.path.join(wd, 'mon.txt')
+    if os.path.exists(mp):
+        mkeys = PROPS.get(pid, {}).get('monitors', [pid])
+        for cid, per in load_monitor(mp).items():
+            for k, d in sorted(per.items()):
+                for mk in mkeys:
+                    if d.get(mk, 'na').startswith('bad'):
+                        print('VIOLATION property=%s replay=%s' % (pid, path))
+                        rc_out = 1
+                        break
+                if rc_out:
+                    break
+            if rc_out:
+                break
+    if rc_out == 0:
+        print('replay: no monitor of %s fails on this input with the current tree' % pid)
     shutil.rmtree(wd, ignore_errors=True)
-    return 0
+    return rc_out
